@@ -1119,11 +1119,10 @@ class PDFPageInterpreter:
             e_new = tx_ * a + ty_ * c + e
             f_new = tx_ * b + ty_ * d + f
             self.textstate.matrix = (a, b, c, d, e_new, f_new)
+            self.textstate.linematrix = (0, 0)
 
         elif settings.STRICT:
             raise PDFValueError(f"Invalid offset ({tx!r}, {ty!r}) for Td")
-
-        self.textstate.linematrix = (0, 0)
 
     def do_TD(self, tx: PDFStackT, ty: PDFStackT) -> None:
         """Move to the start of the next line.
@@ -1139,14 +1138,11 @@ class PDFPageInterpreter:
             e_new = tx_ * a + ty_ * c + e
             f_new = tx_ * b + ty_ * d + f
             self.textstate.matrix = (a, b, c, d, e_new, f_new)
+            self.textstate.leading = ty_
+            self.textstate.linematrix = (0, 0)
 
         elif settings.STRICT:
             raise PDFValueError("Invalid offset ({tx}, {ty}) for TD")
-
-        if ty_ is not None:
-            self.textstate.leading = ty_
-
-        self.textstate.linematrix = (0, 0)
 
     def do_Tm(
         self,
